@@ -19,11 +19,8 @@ CONSTANTS
   CountA = 300
   CountB = 301
   Suffix = 60000
-  Dev = {}
+  Dev = {"hash_probe_once"}
 INIT HInit
 NEXT HNext
-INVARIANT NoUsable
-INVARIANT Valid
-INVARIANT OwnTraits
 INVARIANT DistinctDefsDistinctTraits
 CHECK_DEADLOCK FALSE
